@@ -153,6 +153,8 @@ class WellTyped:
         saved = self.s.container
         if key[0] == "struct":
             self.s.container = key[1]
+        elif key[0] == "and":
+            self.s.container = key
         try:
             out.extend(self._check_props(obj, key, j, ctx, cls))
         finally:
